@@ -229,12 +229,12 @@ fn run_lane(
         let case = prop.decode(&choices, tier);
         let shrinking = state.borrow().first_fail.is_some();
         // a hang is not worth minimising for long: every candidate that still hangs costs a
-        // whole watchdog period; after 90 s the remaining candidates are waved through and the
+        // whole watchdog period; after 45 s the remaining candidates are waved through and the
         // smallest hanging case seen so far is reported
         if shrinking {
             let st = state.borrow();
             let is_hang = matches!(st.first_fail.as_ref().map(|(_, v)| v), Some(Verdict::Violation { kind, .. }) if kind == "hang");
-            if is_hang && st.shrink_started.map(|t| t.elapsed().as_secs() > 90).unwrap_or(false) {
+            if is_hang && st.shrink_started.map(|t| t.elapsed().as_secs() > 45).unwrap_or(false) {
                 return Ok(());
             }
         }
@@ -373,7 +373,7 @@ pub fn run_check(prop: &dyn Prop, cfg: &RunCfg) -> i32 {
         .unwrap_or_default();
     files.sort();
     if !files.is_empty() {
-        let mut w = Worker::spawn(prop.id()).expect("spawn worker");
+        let mut cases: Vec<(PathBuf, Value)> = vec![];
         for p in &files {
             let Ok(txt) = std::fs::read_to_string(p) else {
                 continue;
@@ -382,8 +382,32 @@ pub fn run_check(prop: &dyn Prop, cfg: &RunCfg) -> i32 {
                 eprintln!("unreadable replay file {}", p.display());
                 return 2;
             };
-            let case = v.get("case").cloned().unwrap_or(Value::Null);
-            let (o, _) = eval_confirmed(prop, &mut w, &case, prop.watchdog_ms(), true);
+            cases.push((p.clone(), v.get("case").cloned().unwrap_or(Value::Null)));
+        }
+        // evaluated by up to eight workers side by side (a saved input that hangs costs minutes),
+        // judged in file order
+        let nthreads = cases.len().min(8).max(1);
+        let outcomes: Vec<Outcome> = std::thread::scope(|s| {
+            let handles: Vec<_> = (0..nthreads)
+                .map(|t| {
+                    let cases = &cases;
+                    s.spawn(move || {
+                        let mut w = Worker::spawn(prop.id()).expect("spawn worker");
+                        let mut out = vec![];
+                        for (i, (_, case)) in cases.iter().enumerate() {
+                            if i % nthreads == t {
+                                out.push((i, eval_confirmed(prop, &mut w, case, prop.watchdog_ms(), true).0));
+                            }
+                        }
+                        out
+                    })
+                })
+                .collect();
+            let mut all: Vec<(usize, Outcome)> = handles.into_iter().flat_map(|h| h.join().unwrap()).collect();
+            all.sort_by_key(|(i, _)| *i);
+            all.into_iter().map(|(_, o)| o).collect()
+        });
+        for ((p, case), o) in cases.into_iter().zip(outcomes) {
             replayed += 1;
             if let Some(sig) = o.verdict.signature() {
                 if let Some(f) = known.matches_open(prop.id(), sig) {
